@@ -1,9 +1,10 @@
 package main
 
 // time.Parse for the single layout the library uses (golang pseudo-version timestamps,
-// "20060102150405"): validity of the 14 digits as a calendar date and time is modelled exactly;
-// the resulting time.Time value is the zero struct (its value is never inspected by the library
-// after parsing — Compare uses the textual timestamp).
+// "20060102150405"): validity of the 14 digits as a calendar date and time is modelled exactly,
+// and the resulting time.Time is the struct the real Parse returns for a zone-less layout:
+// wall = 0 (no monotonic reading, 0 ns), ext = seconds since January 1, year 1 UTC, loc = nil (UTC).
+// Time's methods (Equal, Before, After, Compare, Unix, ...) then run from their real source.
 
 import (
 	"go/types"
@@ -55,7 +56,26 @@ func natTimeParse(in *Interp, fn *ssa.Function, args []Value) Value {
 		tb.Le(hour, tb.Int(23)), tb.Le(min, tb.Int(59)), tb.Le(sec, tb.Int(59)),
 	})
 	if in.branch(valid) {
-		return Tuple{zeroTime, Iface{}}
+		// days from January 1, year 1 to the first day of the year (proleptic Gregorian, floor division)
+		year := tb.Add(tb.Mul(cc, tb.Int(100)), yy)
+		y1 := tb.Sub(year, tb.Int(1))
+		days := tb.Add(tb.Sub(tb.Add(tb.Mul(y1, tb.Int(365)), tb.DivF(y1, big.NewInt(4))), tb.DivF(y1, big.NewInt(100))), tb.DivF(y1, big.NewInt(400)))
+		cum := []int64{0, 31, 59, 90, 120, 151, 181, 212, 243, 273, 304, 334}
+		before := tb.Int(cum[11])
+		for m := 10; m >= 0; m-- {
+			before = tb.Ite(tb.Eq(month, tb.Int(int64(m+1))), tb.Int(cum[m]), before)
+		}
+		leapDay := tb.Ite(tb.And(leap, tb.Lt(tb.Int(2), month)), tb.Int(1), tb.Int(0))
+		days = tb.Add(tb.Add(days, before), tb.Add(leapDay, tb.Sub(day, tb.Int(1))))
+		secs := tb.Add(tb.Mul(tb.Add(tb.Mul(days, tb.Int(24)), hour), tb.Int(3600)), tb.Add(tb.Mul(min, tb.Int(60)), sec))
+		t, ok := zeroTime.(Struct)
+		if !ok || len(t) != 3 {
+			unsup("time.Time layout is not {wall, ext, loc}")
+		}
+		out := make(Struct, 3)
+		copy(out, t)
+		out[1] = secs
+		return Tuple{out, Iface{}}
 	}
 	return fail()
 }
